@@ -127,6 +127,7 @@ class QSpec:
     new_cid_len: int = -1         # -1: same length as the server's CID
     new_cid_prefix: str = ""      # "" | "extend" (new CID = old CID + more bytes) | "truncate" (new CID = a proper prefix of the old one)
     client_new_cid_at: int = -1   # same, issued by the client, server switches
+    crypto_retx: str = ""         # "" | "ch" | "sh" | "both": the ClientHello Initial(s) / the server's Initial+Handshake flight are sent a second time (loss recovery: same CRYPTO offsets, new packet numbers)
     new_cid_retire: int = 0       # Retire Prior To of the NEW_CONNECTION_ID frames (0, or 1 = "retire the CID you are using now")
     new_cid_lag: int = 0          # the peer's next k packets were already in flight: they still carry the old CID, the switch happens afterwards
     token: bytes = b""
@@ -325,13 +326,21 @@ def build_qconn(spec: QSpec, rng) -> QConn:
             emit("c", parts)
     for frames in zr:
         emit("c", [mk_long(K["early"], 1, "app", "c", init_dcid, c_scid, frames)])
+    if spec.crypto_retx in ("ch", "both"):
+        for grp in per:
+            emit("c", [mk_long(KI["c"], 0, "init", "c", init_dcid, c_scid, [("crypto", o, d) for o, d in grp], token=tok, pad_to=1162)])
 
     # ---- server flight: Initial(ACK, ServerHello) + Handshake packets (+ 0.5-RTT data)
     p1 = mk_long(KI["s"], 0, "init", "s", c_scid, s_scid, [("raw",) + qf.ack(w, sp[("c", "init")].largest or 0, 0, 0), ("crypto", 0, sh)])
     nsplit = max(1, spec.hs_split)
     edges = [len(s_hs) * i // nsplit for i in range(nsplit + 1)]
-    hs_parts = [mk_long(K["shs"], 2, "hs", "s", c_scid, s_scid, [("crypto", edges[i], s_hs[edges[i]:edges[i + 1]])]) for i in range(nsplit)]
+    def mk_hs_part(i):
+        return mk_long(K["shs"], 2, "hs", "s", c_scid, s_scid, [("crypto", edges[i], s_hs[edges[i]:edges[i + 1]])])
+    hs_parts = [mk_hs_part(0)]          # packets are built in the order they are sent: packet numbers follow the order on the wire
     emit("s", [p1, hs_parts[0]])
+    if spec.crypto_retx in ("sh", "both"):
+        emit("s", [mk_long(KI["s"], 0, "init", "s", c_scid, s_scid, [("crypto", 0, sh)]), mk_hs_part(0)])
+    hs_parts += [mk_hs_part(i) for i in range(1, nsplit)]
     phase = {"c": 0, "s": 0}
     cur = {"c": K["cap"], "s": K["sap"]}
     s_dcid_used_by_client = s_scid     # DCID the client puts into its packets
@@ -425,6 +434,12 @@ def build_qconn(spec: QSpec, rng) -> QConn:
         emit(d, [mk_short(cur[d], d, dcid, frames, phase[d])])
         sent_in_phase[d] = True
     info["key_updates_done"] = updates_done
+    last_pn = {}
+    for g in dg:        # sender validity: within a packet-number space packets go out in packet-number order (the encoded lengths were chosen for that order)
+        for pi in g.packets:
+            if pi.pn >= 0:
+                assert last_pn.get((g.dir, pi.space), -1) < pi.pn, ("packet numbers out of order on the wire", g.dir, pi.space, pi.pn)
+                last_pn[(g.dir, pi.space)] = pi.pn
     info["all_cids"] = [c for c in (info["odcid"], info["c_scid"], info["s_scid"], info.get("retry_scid"), info.get("new_server_cid"), info.get("new_client_cid")) if c]
     expect = [(g.dir, g.stream) for g in dg if g.stream]
     expect_meta = [(g.dir, g.meta) for g in dg if g.meta]
@@ -560,6 +575,7 @@ def random_qspec(rng, napp=None, avoid=()):
     s.tok_vl = rng.choice([None, None, 2, 4, 8])
     s.nst = rng.choice([0, 0, 1, 2])
     s.token = rng.randbytes(rng.choice([0, 0, 16]))
+    s.crypto_retx = rng.choice(["", "", "", "ch", "sh", "both"])
     return s
 
 
